@@ -167,17 +167,37 @@ def unicode_table(chars):
     return run_lines(RUNNER_BIN, [json.dumps({"op": "unicode", "chars": "".join(sorted(chars))})])[0]["ok"]
 
 
-def model(requests, with_unicode=True):
+def snake_table(names):
+    """`convert_case` snake-casing (external to typeshare) of `names` and of everything rename_all can
+    make of them, computed by the real crates through the runner"""
+    names = sorted(set(names))
+    if not names:
+        return []
+    rules = ["lowercase", "UPPERCASE", "PascalCase", "camelCase", "snake_case", "SCREAMING_SNAKE_CASE", "kebab-case",
+             "SCREAMING-KEBAB-CASE"]
+    ans = run_lines(RUNNER_BIN, [json.dumps({"op": "rename", "rule": r, "s": n}) for n in names for r in rules])
+    cands = set(names) | {a["ok"] for a in ans if "ok" in a}
+    rows = run_lines(RUNNER_BIN, [json.dumps({"op": "snake", "strings": sorted(cands)})])[0]["ok"]
+    return [[a, b] for a, b in rows if a != b]
+
+
+def model(requests, with_unicode=True, names=None):
     """requests: list of python s-expression values; returns JSON answers of the Lean model.
     The model's Unicode parameter is instantiated with a table for exactly the non-ASCII characters
-    that occur in the requests."""
+    that occur in the requests; `names` (identifiers / rename strings of the cases) feed the
+    convert_case table the Python back-end model needs."""
     lines = [sx(r) for r in requests]
+    prefix = []
+    if names:
+        rows = snake_table(names)
+        prefix.append(sx([S("snake-table"), rows]))
+        requests = list(requests) + [rows]
     if with_unicode:
         acc = set()
         _nonascii(requests, acc)
         rows = [[r[0], r[1], r[2], r[3], r[4], r[5]] for r in unicode_table(acc)]
-        return run_lines(MODEL_BIN, lines, prefix=[sx([S("unicode"), rows])])
-    return run_lines(MODEL_BIN, lines)
+        prefix.insert(0, sx([S("unicode"), rows]))
+    return run_lines(MODEL_BIN, lines, prefix=prefix)
 
 
 def runner(requests):
